@@ -679,6 +679,7 @@ class C15C(EngineBase):
             "p_b": r.choice([0.02, 0.1]),
             "p_cold": r.choice([0.0005, 0.002]) if kind == "biased" else r.choice([0.002, 0.02]),
             "pct_d": r.choice([1, 2, 3]),
+            "bp_tries": 12 if tier == "quick" else 48,
             # fraction of the attribute-storing (tier B) functions that are
             # also pre-emptible between bytecodes in this run
             "instr_b": r.choice([0.0, 0.0, 0.25, 0.5, 1.0]),
